@@ -30,7 +30,7 @@ RULE = ('Include graphs of 1-6 files in a fresh temporary directory tree (sub-di
         'root spelling; or a raising body after an edit.')
 ASSUMPTIONS = ['symlinks, absolute includes under a relative root, non-UTF-8 and unwritable files are not generated (the property does not speak about them)']
 SHRINK_LISTS = ('edits',)
-REQUIRED_CLASSES = ('workspace-dir-with-glob-chars', 'mode:recursive', 'mode:single', 'cr-content-edited', 'spelling:bare', 'spelling:abs', 'glob', 'cycle', 'raise-after-edit',
+REQUIRED_CLASSES = ('spelling:symlink', 'workspace-dir-with-glob-chars', 'mode:recursive', 'mode:single', 'cr-content-edited', 'spelling:bare', 'spelling:abs', 'glob', 'cycle', 'raise-after-edit',
                     'removed-entry', 'added-entry')
 
 OLD_NS = 1_000_000_000 * 10 ** 9 // 10 ** 9 * 10 ** 9  # a fixed old mtime (2001)
@@ -194,7 +194,13 @@ def _run(case: dict, res: Result, tmp: str) -> Result:
     os.chdir(tmp)
     root = case['root']
     spelling = case.get('spelling', 'bare')
-    arg = _spell(root, spelling, tmp)
+    link = os.path.join(os.path.dirname(root), 'zz-link.bean')
+    if spelling == 'symlink':
+        # the ledger is named through a symbolic link that stands next to it (so that relative includes resolve the same way)
+        os.symlink(os.path.basename(root), os.path.join(tmp, link))
+        arg: Any = link
+    else:
+        arg = _spell(root, spelling, tmp)
     absolute = spelling in ('abs', 'abspath', 'dslash')
     classes.add('spelling:' + ('abs' if absolute else spelling))
     before = {n: (open(os.path.join(tmp, n), 'rb').read(), os.stat(os.path.join(tmp, n)).st_mtime_ns, os.stat(os.path.join(tmp, n)).st_ino)
@@ -212,6 +218,8 @@ def _run(case: dict, res: Result, tmp: str) -> Result:
     any_cr = False
 
     def key_of(name: str) -> str:
+        if spelling == 'symlink' and os.path.normpath(name) == os.path.normpath(root):
+            return os.path.normpath(link)
         if spelling == 'dslash':
             return os.path.normpath('/' + os.path.join(tmp, name))
         return os.path.normpath(os.path.join(tmp, name)) if absolute else os.path.normpath(name)
@@ -263,6 +271,8 @@ def _run(case: dict, res: Result, tmp: str) -> Result:
                     if e['kind'] in ('append', 'tokval', 'same', 'read', 'comment'):
                         if apply_edit(fs[key_of(name)], e['kind']):
                             changed.add(name)
+                    elif e['kind'] == 'remove' and spelling == 'symlink' and os.path.normpath(name) == os.path.normpath(root):
+                        pass   # removing the entry named through the link deletes the link, not the ledger: not part of this oracle
                     elif e['kind'] == 'remove':
                         del fs[key_of(name)]
                         removed.add(name)
@@ -296,6 +306,8 @@ def _run(case: dict, res: Result, tmp: str) -> Result:
                 name = names[e.get('file', 0) % len(names)]
             if e['kind'] in ('append', 'tokval', 'same', 'read', 'comment'):
                 apply_edit(models_h[name], e['kind'])
+            elif e['kind'] == 'remove' and spelling == 'symlink' and os.path.normpath(name) == os.path.normpath(root):
+                pass
             elif e['kind'] == 'remove':
                 removed_h.add(name)
         for n in reach - removed:
@@ -305,6 +317,11 @@ def _run(case: dict, res: Result, tmp: str) -> Result:
         if changed:
             classes.add('raise-after-edit')
     # ---- compare the file system
+    if spelling == 'symlink':
+        classes.add('spelling:symlink')
+        if not os.path.islink(os.path.join(tmp, link)):
+            res.bad('symlink-replaced', f'the ledger was named through the symbolic link {link!r}; afterwards that path is no longer a link (the file behind it: '
+                    f'{open(os.path.join(tmp, root), "rb").read()[:120]!r})')
     for name in files:
         p = os.path.join(tmp, name)
         b0, mt0, ino0 = before[name]
@@ -427,7 +444,7 @@ def _build(tier: str):
                 e['text'] = '2000-01-01 open Assets:Added\n' if g.p(0.5) else '2000-01-01 open Assets:Added\r\n; c\r\n'
             edits.append(e)
         return {'files': files, 'root': root, 'mode': 'single' if single else 'recursive', 'cycle': cycle,
-                'spelling': g.pick(['bare', 'bare', 'dot', 'redundant', 'abs', 'path', 'abspath', 'dslash']), 'edits': edits, 'raise': g.p(0.2),
+                'spelling': g.pick(['bare', 'bare', 'dot', 'redundant', 'abs', 'path', 'abspath', 'dslash', 'symlink']), 'edits': edits, 'raise': g.p(0.2),
                 'top': g.pick(['y[1]', 'Finance [2020]', 'a*b', 'q?', '[x]']) if g.p(0.3) else ''}
     return build
 
